@@ -6,6 +6,7 @@ package hermes
 
 func init() {
 	vRegister("zzC18Override", func(a []int) { zzC18Override(a[0], a[1]) })
+	vRegister("zzC18OtherFile", func(a []int) { zzC18OtherFile(a[0]) })
 }
 
 const zzNK, zzNS = 3, 2 // organs, stages (different, so that the two index ranges cannot be confused)
@@ -49,7 +50,13 @@ func zzApply(p *CropParam) (*GlobalVarsMain, *CropSharedVars) {
 	return g, l
 }
 
+// every field of the run state and of the crop module's state (also fields added later, e.g. quantities derived
+// from the parameters when they are read) has to agree
 func zzSameCrop(g1 *GlobalVarsMain, l1 *CropSharedVars, g2 *GlobalVarsMain, l2 *CropSharedVars) bool {
+	return vSameState(l1, l2) && vSameState(g1, g2)
+}
+
+func zzSameCropListed(g1 *GlobalVarsMain, l1 *CropSharedVars, g2 *GlobalVarsMain, l2 *CropSharedVars) bool {
 	same := g1.MAXAMAX == g2.MAXAMAX && g1.MINTMP == g2.MINTMP && g1.WUMAXPF == g2.WUMAXPF && g1.VELOC == g2.VELOC && g1.YIFAK == g2.YIFAK &&
 		g1.GEHOB == g2.GEHOB && g1.WUGEH == g2.WUGEH && l1.tendsum == l2.tendsum && l1.kcini == l2.kcini
 	for s := 0; s < zzNS; s++ {
@@ -172,4 +179,24 @@ func zzC18Override(key, idx int) {
 	if applied && !rejected {
 		vCover("C18.cover_override_applied")
 	}
+}
+
+var zzOtherFiles = []string{"some/dir/PARAM.XY", "some/dir/XPARAM.X", "some/dir/PARAM.", "PARAM.X/PARAM.Y", "some/dir/param.x"}
+
+// an override addresses one crop parameter file: while any other crop of the rotation is read (also one whose file
+// name merely starts or ends with the addressed name) the run is the one without overrides
+func zzC18OtherFile(which int) {
+	v := vFloat("value")
+	vAssume(v >= 1 && v <= 90)
+	P := zzCropParam()
+	ow := &CropOverwrite{CropFile: "PARAM.X", BaseFloatParameters: map[string]float64{"MAXAMAX": v, "INITCONCNBIOM": v}, DevelopmentStageParameters: map[string]map[int]float64{"TSUM": {1: v}}, PartitioningParameters: map[string]map[PartPair]float64{}}
+	gA, lA := zzApply(&P)
+	ow.OverwriteCropParameters(zzOtherFiles[which], gA, lA)
+	gN, lN := zzApply(&P)
+	vCover("C18.otherfile.reach")
+	vAssert("C18.override_leaves_other_crop_files_alone", zzSameCrop(gA, lA, gN, lN))
+	// and it is applied to the addressed file wherever that lies
+	gB, lB := zzApply(&P)
+	ow.OverwriteCropParameters("another/place/PARAM.X", gB, lB)
+	vAssert("C18.override_applied_to_addressed_file", gB.MAXAMAX == v)
 }
